@@ -21,7 +21,7 @@ func init() {
 		Technique: "must-facts at the vote call and at the action effects (member, threshold literal over the same key list), exit-fact exclusion of the action on the quiet return, operator-normalised boundary agreement of the 20-block window between sibling functions, term check of the refreshed ballot, membership-loop dominance of the voter insertion",
 		Explanation: "For cheque, alphabetUpdate, setConfig and innerRingCandidateRemove in notary-disabled mode: D1 the voter passed to common.Vote is established non-empty and is the element of the stored Alphabet list whose witness was checked. " +
 			"D2 the action's effects are reachable only under ¬(n < ⌊2·len(K)/3⌋+1) with n the result of that Vote call and K the same stored list, the return under n < threshold executes none of them, and RemoveVotes is called with the same decision id before the action. " +
-			"D3 Vote treats a ballot as expired exactly when TryPurgeVotes does not treat it as alive (gap > 20, the same constant), a counted vote stores the ballot with Height = current height and a new ballot starts at the current height. D4 distinct-principal counting: the voter is appended only after it was compared with every recorded voter and found different; the count returned is the length of the voter list; ballots of other ids are carried over unchanged. M: vote actions fire at every non-quiet return; common.Vote keeps a ballot only on the not-expired side, appends a new ballot only when none was found and visits every ballot; TryPurgeVotes answers false only on the alive side and purges after all were found expired; RemoveVotes removes at the index of the id match; loaders getBallots/getAlphabetNodes. R6: the ballot id handed to Vote may depend on the decision id the method was called with (SSA backward slice; certain independence is reported). R10: the stored layout of common.Ballot is decided here as well. R11 decode-absent: an item that some method of the contract deletes is decoded with std.Deserialize only where the read was found non-nil (the ballot list).",
+			"D3 Vote treats a ballot as expired exactly when TryPurgeVotes does not treat it as alive (gap > 20, the same constant), a counted vote stores the ballot with Height = current height and a new ballot starts at the current height. D4 distinct-principal counting: the voter is appended only after it was compared with every recorded voter and found different; the count returned is the length of the voter list; ballots of other ids are carried over unchanged. M: vote actions fire at every non-quiet return; common.Vote keeps a ballot only on the not-expired side, appends a new ballot only when none was found and visits every ballot; TryPurgeVotes answers false only on the alive side and purges after all were found expired; RemoveVotes removes at the index of the id match; loaders getBallots/getAlphabetNodes. R6: the ballot id handed to Vote may depend on the decision id the method was called with (SSA backward slice; certain independence is reported). R10: the stored layout of common.Ballot is decided here as well. R11 decode-absent: an item that some method of the contract deletes is decoded with std.Deserialize only where the read was found non-nil (the ballot list). R13 catching-frame: no function with a deferred recover that a method of the property's contracts can reach lies outside the who-may-catch table (container.deleteNNSRecords).",
 		NotCovered: "timing over block schedules and competing ids at run time; the notary-enabled branch is C03.",
 		Run:        runC17,
 	})
@@ -31,7 +31,7 @@ func init() {
 		Technique: "must-facts at the notification/transfer sites (caller, amount bounds, checked results), canonical arithmetic terms of the shares, loop-shape of the per-node transfers",
 		Explanation: "D1 neofs.OnNEP17Payment notifies Deposit only under caller = GAS ∧ 0 < amount ≤ 9000·10^8 with receiver ∈ {20-byte data, sender}. D2 Withdraw: W(user), 0 ≤ amount ≤ 9000, exactly one fee transfer to the stored Processing address with Notary or one per stored Alphabet key without, amount = configured WithdrawFee, every transfer result checked, notified amount = amount·10^8. " +
 			"D3 Cheque pays exactly gas.Transfer(self → user, amount) once, result checked, and notifies the same terms. D4 InnerRingCandidateAdd charges the configured fee from the standard account of the witnessed key to the contract with the marker OnNEP17Payment ignores. " +
-			"D5 alphabet.Emit: proxy share = g/2, node share = (g − g/2)·7/8/len(InnerRing) with the same list that is iterated, one transfer per element, loop-invariant amount. D6 OnNEP17Payment of Proxy/Processing (GAS) and Alphabet (GAS ∨ NEO) cannot return normally otherwise. D7 Cheque runs the vote-protocol rules of C17 itself (paid once: the ballot of the same id is removed before the payout). M: the deposit callback aborts only for the documented reasons and reports every accepted payment but the marker one; Withdraw faults only without W(user), outside [0, 9000] or after a failed fee transfer; a candidate is charged and stored exactly when not stored yet; the Emit loop is gone round only for a zero share. R6: no abort of the deposit callback is reachable with the candidate-fee marker as data (the fee is a setting, the deposit limits do not apply to it). R7: the documented gate of alphabet.Emit (the gate rule of C03) is decided here as well. R8: the documented gate of Cheque (Alphabet multisignature with Notary; gate rule shared with C03) is decided here as well. R9: a payment made by the accepted native token is never refused by Proxy/Processing/Alphabet (no abort is satisfiable with that caller). R11: decode-absent for the ballot list read by Cheque (shared with C17). S3: the vote protocol of all four voting methods (they share one ballot list: RemoveVotes is handed the id the method voted with).",
+			"D5 alphabet.Emit: proxy share = g/2, node share = (g − g/2)·7/8/len(InnerRing) with the same list that is iterated, one transfer per element, loop-invariant amount. D6 OnNEP17Payment of Proxy/Processing (GAS) and Alphabet (GAS ∨ NEO) cannot return normally otherwise. D7 Cheque runs the vote-protocol rules of C17 itself (paid once: the ballot of the same id is removed before the payout). M: the deposit callback aborts only for the documented reasons and reports every accepted payment but the marker one; Withdraw faults only without W(user), outside [0, 9000] or after a failed fee transfer; a candidate is charged and stored exactly when not stored yet; the Emit loop is gone round only for a zero share. R6: no abort of the deposit callback is reachable with the candidate-fee marker as data (the fee is a setting, the deposit limits do not apply to it). R7: the documented gate of alphabet.Emit (the gate rule of C03) is decided here as well. R8: the documented gate of Cheque (Alphabet multisignature with Notary; gate rule shared with C03) is decided here as well. R9: a payment made by the accepted native token is never refused by Proxy/Processing/Alphabet (no abort is satisfiable with that caller). R11: decode-absent for the ballot list read by Cheque (shared with C17). S3: the vote protocol of all four voting methods (they share one ballot list: RemoveVotes is handed the id the method voted with). R13 catching-frame: no function with a deferred recover that a method of the property's contracts can reach lies outside the who-may-catch table (container.deleteNNSRecords). R13 abort-not-throw: payment refusals end in util.Abort, not in a catchable panic.",
 		NotCovered: "the GAS balance identity over histories; behaviour of the native contracts.",
 		Run:        runC19,
 	})
